@@ -10,6 +10,7 @@ import (
 	"strings"
 	"unicode"
 
+	"github.com/apparentlymart/go-textseg/v15/textseg"
 	"github.com/hashicorp/hcl-lang/lang"
 	"github.com/hashicorp/hcl-lang/schema"
 	"github.com/hashicorp/hcl/v2"
@@ -226,9 +227,28 @@ func (obj Object) CompletionAtPos(ctx context.Context, pos hcl.Pos) []lang.Candi
 		Start:    pos,
 		End:      eType.SrcRange.End,
 	}
-	editRange = objectItemPrefixBasedEditRange(remainingRange, fileBytes, trimmedBytes)
+	// the edit starts where the prefix starts, which is not right
+	// before the cursor if blanks separate the two
+	blanksLen := len(leftBytes) - len(bytes.TrimRight(leftBytes, " \t"))
+	prefixToPosBytes := leftBytes[len(leftBytes)-len(trimmedBytes)-blanksLen:]
+	editRange = objectItemPrefixBasedEditRange(remainingRange, fileBytes, prefixToPosBytes)
 
 	return objectAttributesToCandidates(ctx, prefix, obj.cons.Attributes, declared, editRange)
+}
+
+// columnCount returns the number of columns (grapheme clusters,
+// as counted by the HCL scanner) which the given bytes occupy
+func columnCount(b []byte) int {
+	count := 0
+	for len(b) > 0 {
+		advance, _, _ := textseg.ScanGraphemeClusters(b, true)
+		if advance <= 0 {
+			break
+		}
+		count++
+		b = b[advance:]
+	}
+	return count
 }
 
 func objectItemPrefixBasedEditRange(remainingRange hcl.Range, fileBytes []byte, rawPrefixBytes []byte) hcl.Range {
@@ -251,13 +271,13 @@ func objectItemPrefixBasedEditRange(remainingRange hcl.Range, fileBytes []byte, 
 		Start: hcl.Pos{
 			// TODO: Calculate Line+Column for multi-line keys?
 			Line:   remainingRange.Start.Line,
-			Column: remainingRange.Start.Column - len(rawPrefixBytes),
+			Column: remainingRange.Start.Column - columnCount(rawPrefixBytes),
 			Byte:   remainingRange.Start.Byte - len(rawPrefixBytes),
 		},
 		End: hcl.Pos{
 			// TODO: Calculate Line+Column for multi-line values?
 			Line:   remainingRange.Start.Line,
-			Column: remainingRange.Start.Column + trimmedOffset,
+			Column: remainingRange.Start.Column + columnCount(trimmedRightBytes),
 			Byte:   remainingRange.Start.Byte + trimmedOffset,
 		},
 	}
